@@ -61,10 +61,15 @@ static int parseConvertElement(MPT_INTERFACE(convertable) *conv, MPT_TYPE(type) 
 	}
 	if (type == MPT_type_toVector('c')) {
 		while (isspace(*txt)) ++txt;
-		while (!isspace(*txt)) ++txt;
-		it->restore = (char *) txt;
-		it->save = *txt;
-		*it->restore = 0;
+		/* word ends at white space or end of text */
+		while (*txt && !isspace(*txt)) ++txt;
+		if (txt >= it->end) {
+			it->restore = 0;
+		} else {
+			it->restore = (char *) txt;
+			it->save = *txt;
+			*it->restore = 0;
+		}
 		if (dest) {
 			struct iovec *vec = dest;
 			vec->iov_base = it->val;
